@@ -1,6 +1,7 @@
 import Cvise.Proofs.DriverAccept
 import Cvise.Proofs.DriverTimeouts
 import Cvise.Proofs.DriverDirs
+import Cvise.Proofs.DriverTotal
 import Cvise.Gen.Const
 /-!
 # C09 — failing, hanging or crashing tests and tools are never accepted (decision logic)
@@ -78,5 +79,17 @@ example : (RRes.side (roundLoop ({ maxTimeouts := 2 } : Cfg) (fun (c : Nat) => c
 -- non-vacuity: an env that is accepted and one with a signal exit that is not
 example : (check ({} : Cfg) (fun (c : Nat) => c) 5 ({ order := 1, pr := .ok, cand := 3, st := (), exit := some (.code 0) } : EnvRes Nat Unit) {} false).1 = .accept := by decide
 example : (check ({} : Cfg) (fun (c : Nat) => c) 5 ({ order := 1, pr := .ok, cand := 3, st := (), exit := some (.code (-9)) } : EnvRes Nat Unit) {} false).1 = .ignore := by decide
+
+/-- **failing, hanging or crashing candidates never wedge a pass run**: `W.fault` assigns any outcome (non-zero exit,
+    signal, timeout, foreign exception, swallowed exception) to any candidate of any round, `dn` is any completion order —
+    for a pass with a measure (`D.Measured`) the rounds on a file still end, and the result does not depend on the
+    fuel of the executable model.  Whole reductions: `C03.reduction_terminates`. -/
+theorem pass_run_completes_under_faults [Inhabited σ] [Inhabited C] (cfg : Cfg) (size : C → Nat) (test : List C → Exit)
+    (fault : Nat → Nat → Option Exit) (dn : Sched) (P : PassI C σ) (I : C → σ → Prop) (μ : C → σ → Nat) (hμ : Measured P I μ)
+    (k startSize j fuel rid : Nat) (s : σ) (succ : Nat) (x : St C) (hk : k < x.disk.length) (hI : I (x.disk.getD k default) s)
+    (h1 : μ (x.disk.getD k default) s < fuel) (h2 : μ (x.disk.getD k default) s < cfg.giveup + 1000) :
+    fileLoop cfg ⟨size, test, fault⟩ dn P k startSize fuel rid s succ x =
+    fileLoop cfg ⟨size, test, fault⟩ dn P k startSize (fuel + j) rid s succ x :=
+  fileLoop_total cfg ⟨size, test, fault⟩ dn P I μ hμ k startSize j fuel rid s succ x hk hI h1 h2
 
 end Cvise.C09
